@@ -128,6 +128,16 @@ func init() {
 		vhPkg + "Sched":     func(fr *frame, a []value) value { fr.i.drainThreads(); return nil },
 		vhPkg + "Preempt":   func(fr *frame, a []value) value { fr.i.path.preemptBound = int(asInt64(a[0])); return nil },
 		vhPkg + "MapOrder":  extVhMapOrder,
+		vhPkg + "LocksHeld": func(fr *frame, a []value) value {
+			c := 0
+			for _, s := range fr.i.sync {
+				if s.locked {
+					c++
+				}
+			}
+			return c
+		},
+
 		vhPkg + "Concrete":  extVhConcrete,
 		vhPkg + "ConcreteBool": func(fr *frame, a []value) value {
 			if s, ok := a[0].(sym); ok {
